@@ -392,9 +392,31 @@ func c11Pairing(p *Program, r *Report) {
 	r.Floor("element-pairing", 4)
 	pairs := [][2]string{{"writeCollection", "readCollection"}, {"writeMap", "readMap"}, {"writeTuple", "readTuple"}, {"writeUdt", "readUdt"}}
 	norm := func(s string) string {
-		// the injector may be obtained through the factory
-		re := regexp.MustCompile(`\$injectorFactory\(([^()]|\([^()]*\))*\)`)
-		return re.ReplaceAllString(s, "$$inj")
+		// the injector may be obtained through the factory: $injectorFactory(<balanced>) -> $inj
+		for {
+			i := strings.Index(s, "$injectorFactory(")
+			if i < 0 {
+				break
+			}
+			depth, j := 0, i+len("$injectorFactory")
+			for ; j < len(s); j++ {
+				if s[j] == '(' {
+					depth++
+				} else if s[j] == ')' {
+					depth--
+					if depth == 0 {
+						break
+					}
+				}
+			}
+			if j >= len(s) {
+				break
+			}
+			s = s[:i] + "$inj" + s[j+1:]
+		}
+		// reads through a local reader over the source
+		s = strings.ReplaceAll(s, "($reader)", "($source)")
+		return s
 	}
 	for _, pr := range pairs {
 		wf := p.SSA().FuncValue(p.LookupFunc("datacodec", pr[0]))
@@ -436,7 +458,7 @@ func c11Pairing(p *Program, r *Report) {
 			}
 		}
 		// reader stages
-		rctx := &provCtx{p: p, env: map[*ssa.Parameter]string{}, seen: map[ssa.Value]bool{}, noInline: true}
+		rctx := &provCtx{p: p, env: map[*ssa.Parameter]string{}, seen: map[ssa.Value]bool{}}
 		decRe := regexp.MustCompile(`^(.*)\.Decode\(((?:bytes|shortbytes)@(\d+)\(\$source\)(?: \| (?:bytes|shortbytes)@(\d+)\(\$source\))?), (.*), \$version\)$`)
 		var rst []stage
 		var seqs []string
